@@ -9,3 +9,9 @@ CHECKS["C16"] = (
     "exhaustive for (start,end) pairs in bands around every multiple k*2^j (j=17..29) in both coordinate conventions and for (interval, query) pairs on a thinner grid; random pairs up to 2^30; one recorded finding (K6)",
     "DESIGN.md 5/C16",
 )
+
+CHECKS["C01"] = (
+    "runtime monitoring: position-list reference model checked against every point / interval / location conversion call of SingleInterval, CompoundInterval and the FeatureInterval wrappers under exhaustive small-scope and seeded random workloads",
+    "exhaustive for all 1..3-block layouts over a small genome x strands x every position and sub-interval, and all (location, query) pairs of <=2-block layouts; random layouts incl. self-overlapping blocks; one recorded finding (K16), two repaired (F6, F10)",
+    "DESIGN.md 5/C01",
+)
